@@ -185,11 +185,86 @@ def cases(draw, codec):
     return spec, items, outside, spec2, log, v2items
 
 
+def directed_modules(codec):
+    """Stratification floor built by construction: the boundary classes of the documented C subset that ten random
+    modules per shard reach too rarely - lengths on both sides of the one/two-octet (7/8/9-bit) length forms, integer
+    ranges on both sides of every C type width, ENUMERATED numberings next to 0..n-1, BIT STRING sizes around the
+    byte/word widths.  -> [(spec, items)]"""
+    from ..asn import Ty, Member, Module, Spec, Rng
+    out = []
+    m = Module('M', 'AUTOMATIC')
+    items = []
+
+    def lens(lo, hi):
+        return sorted(set(x for x in (lo, lo + 1, 1, 2, 126, 127, 128, 129, 254, 255, 256, 257, hi - 1, hi)
+                          if lo <= x <= hi))
+    for lo, hi in [(0, 127), (0, 128), (0, 255), (0, 256), (1, 300), (127, 129), (200, 200), (128, 128), (1, 256)]:
+        name = 'O%dx%d' % (lo, hi)
+        m.types.append((name, Ty('OCTET STRING', size=Rng(lo, hi))))
+        items.append(('M', name, [bytes((i * 7 + n) % 256 for i in range(n)) for n in lens(lo, hi)]))
+    out.append((Spec([m]), items))
+    m = Module('M', 'AUTOMATIC')
+    items = []
+    for lo, hi in [(0, 127), (0, 128), (0, 255), (0, 256), (1, 300), (2, 2)]:
+        name = 'L%dx%d' % (lo, hi)
+        m.types.append((name, Ty('SEQUENCE OF', elem=Ty('INTEGER', rng=Rng(0, 255)), size=Rng(lo, hi))))
+        items.append(('M', name, [[(i * 3) % 256 for i in range(n)] for n in lens(lo, hi)]))
+    out.append((Spec([m]), items))
+    m = Module('M', 'AUTOMATIC')
+    items = []
+    ranges = [(0, 255), (0, 256), (1, 256), (-128, 127), (-129, 127), (-128, 128), (0, 65535), (0, 65536),
+              (-32768, 32767), (-32769, 32767), (0, 2 ** 32 - 1), (0, 2 ** 32), (-2 ** 31, 2 ** 31 - 1),
+              (-2 ** 31 - 1, 2 ** 31 - 1), (0, 2 ** 64 - 1), (-2 ** 63, 2 ** 63 - 1), (5, 5), (0, 1), (-1, 0),
+              (1000, 1255), (2 ** 63, 2 ** 64 - 1), (-2 ** 63, -2 ** 63 + 255)]
+    for i, (lo, hi) in enumerate(ranges):
+        name = 'I%d' % i
+        m.types.append((name, Ty('INTEGER', rng=Rng(lo, hi))))
+        items.append(('M', name, sorted(set(x for x in (lo, lo + 1, hi - 1, hi, (lo + hi) // 2, 0, -1, 127, 128, 255,
+                                                        256, 65535, 65536) if lo <= x <= hi))))
+    out.append((Spec([m]), items))
+    m = Module('M', 'AUTOMATIC')
+    items = []
+    enums = [[('a', 0), ('b', 1), ('c', 2)], [('low', -1), ('mid', 1), ('high', 2)], [('a', 5), ('b', 300)],
+             [('a', -129), ('b', 127)], [('n', -2), ('z', 0), ('p', 1), ('q', 3)], [('a', 1), ('b', 2), ('c', 3)],
+             [('c', 2), ('a', 0), ('b', 1)], [('only', 0)], [('a', 0), ('b', 2)], [('x', 70000), ('y', -70000)]]
+    for i, e in enumerate(enums):
+        name = 'E%d' % i
+        m.types.append((name, Ty('ENUMERATED', enum_root=[(n, v, True) for n, v in e])))
+        items.append(('M', name, [n for n, _ in e]))
+    out.append((Spec([m]), items))
+    m = Module('M', 'AUTOMATIC')
+    items = []
+    for n in (1, 7, 8, 9, 15, 16, 17, 31, 32, 33, 63, 64):
+        name = 'B%d' % n
+        m.types.append((name, Ty('BIT STRING', size=Rng(n, n))))
+        nb = (n + 7) // 8
+        mask = (0xff << (8 * nb - n)) & 0xff
+        vals = [(bytes([0xff] * (nb - 1) + [mask]), n), (bytes(nb), n),
+                (bytes([0xaa] * (nb - 1) + [0xaa & mask]), n), (bytes([0x80] + [0] * (nb - 1)), n),
+                (bytes([0] * (nb - 1) + [(1 << (8 * nb - n)) & 0xff]), n)]
+        items.append(('M', name, vals))
+    m.types.append(('I1', Ty('INTEGER', rng=Rng(0, 256))))
+    m.types.append(('I9', Ty('INTEGER', rng=Rng(-32769, 32767))))
+    m.types.append(('I8', Ty('INTEGER', rng=Rng(-32768, 32767))))
+    m.types.append(('E1', Ty('ENUMERATED', enum_root=[('low', -1, True), ('mid', 1, True), ('high', 2, True)])))
+    m.types.append(('E4', Ty('ENUMERATED', enum_root=[('n', -2, True), ('z', 0, True), ('p', 1, True), ('q', 3, True)])))
+    mem = [Member('i', Ty('REF', ref='I1')), Member('e', Ty('REF', ref='E1'), optional=True),
+           Member('b', Ty('REF', ref='B9'), optional=True), Member('k', Ty('REF', ref='I9'))]
+    m.types.append(('S', Ty('SEQUENCE', root=mem)))
+    items.append(('M', 'S', [{'i': 256, 'k': -32769}, {'i': 0, 'e': 'low', 'b': (b'\xff\x80', 9), 'k': 32767},
+                             {'i': 1, 'e': 'high', 'k': 0}]))
+    m.types.append(('C', Ty('CHOICE', root=[Member('x', Ty('REF', ref='E4')), Member('y', Ty('REF', ref='I8')),
+                                            Member('z', Ty('NULL'))])))
+    items.append(('M', 'C', [('x', 'n'), ('x', 'q'), ('y', -32768), ('z', None)]))
+    out.append((Spec([m]), items))
+    return out
+
+
 class CGenCheck(Check):
     codec = 'uper'
 
     def shards(self, tier):
-        return [{'i': i} for i in range(16)]
+        return [{'i': i} for i in range(16)] + [{'i': 16 + j, 'directed': j} for j in range(5)]
 
     def scratch(self):
         return tempfile.mkdtemp(prefix='asn1v-c-', dir=os.environ.get('TMPDIR', '/tmp'))
@@ -439,6 +514,16 @@ class CGenCheck(Check):
                 rec.cls('harness-trap(not claimed by C10):' + trap[0].split(' with')[0][:40])
 
     def run_shard(self, shard, tier, seed, rec):
+        if 'directed' in shard:
+            if not shard.get('_shrink'):
+                spec, items = directed_modules(self.codec)[shard['directed']]
+                rec.cases += 1
+                rec.cls('directed-cases')
+                self.pipeline(rec, spec, items, None, fuzz_runs=3000 if tier == 'quick' else 200000)
+                bad = [k for k in rec.notes if k.startswith('driver-map-error')]
+                if bad:
+                    raise env.InfraError('C driver could not map values: %r' % bad[:3])
+            return
         scale = float(os.environ.get('ASN1V_SCALE', '1'))
         n = max(1, int((10 if tier == "quick" else 150) * scale))
         fuzz_every = 3 if tier == 'quick' else 2
